@@ -67,6 +67,11 @@ def make_stack(kind, default_noreply=True, key_prefix=b"", **kw):
         cl = PooledClient(("mc1", 11211), **opts)
     elif kind in ("hash", "hashpooled"):
         cl = HashClient([("mc1", 11211)], use_pooling=(kind == "hashpooled"), **opts)
+    elif kind == "hash3":
+        # three healthy servers behind one HashClient are one cache: every key lives on the server placement gives it
+        for nm in ("mc2", "mc3"):
+            net.add_server((nm, 11211))._next_cas = srv._next_cas      # one numbering of cas ids, as in one cache
+        cl = HashClient([("mc1", 11211), ("mc2", 11211), ("mc3", 11211)], **opts)
     elif kind == "retrying":
         cl = RetryingClient(Client(("mc1", 11211), **opts), attempts=1)
     else:
@@ -85,7 +90,10 @@ def do_op(cl, ev, default_noreply, variant, kind="client"):
         kw["noreply"] = nr          # otherwise rely on the documented default ...
     elif variant % 4 == 0 and (op not in NOREPLY_DEFAULT_FALSE or op == "cas"):
         kw["noreply"] = None        # ... or say so explicitly (None = "use the default"; for cas: falsy = wait for the reply)
-    key = k if variant % 3 else k.encode()     # str and bytes keys
+    # str and bytes keys; with several servers one spelling per key (the two spellings of a key are placed independently:
+    # known finding C12/str-and-bytes-spellings..., reported by C12's own probe)
+    as_str = bool(variant % 3) or kind == "hash3"
+    key = k if as_str else k.encode()
     keymap = {key: k}
     try:
         if op in ("set", "add", "replace", "append", "prepend"):
@@ -102,14 +110,14 @@ def do_op(cl, ev, default_noreply, variant, kind="client"):
         elif op == "gats":
             r = cl.gats(key, expire=exp, default=DFLT, cas_default=CASDFLT)
         elif op in ("get_many", "gets_many"):
-            keys = [x if variant % 3 else x.encode() for x in ev["keys"]]
+            keys = [x if as_str else x.encode() for x in ev["keys"]]
             keymap = dict(zip(keys, ev["keys"]))
             coll = [list, tuple, iter][variant % 3](keys) if kind in ("client", "pooled", "retrying") else keys
             r = getattr(cl, op)(coll)
         elif op == "delete":
             r = cl.delete(key, **kw)
         elif op == "delete_many":
-            keys = [x if variant % 3 else x.encode() for x in ev["keys"]]
+            keys = [x if as_str else x.encode() for x in ev["keys"]]
             r = cl.delete_many(keys, **kw)
         elif op in ("incr", "decr"):
             r = getattr(cl, op)(key, ev["delta"], **kw)
@@ -117,10 +125,10 @@ def do_op(cl, ev, default_noreply, variant, kind="client"):
             r = cl.touch(key, expire=exp, **kw)
         elif op == "flush_all":
             r = cl.flush_all(**kw)
-            if kind in ("hash", "hashpooled"):
+            if kind in ("hash", "hashpooled", "hash3"):
                 r = True if r is None else r       # HashClient.flush_all is documented to return None
         elif op == "set_many":
-            items = {(x if variant % 3 else x.encode()): bval(val) for x, val in ev["items"]}
+            items = {(x if as_str else x.encode()): bval(val) for x, val in ev["items"]}
             keymap = dict(zip(items.keys(), [x for x, _ in ev["items"]]))
             r = cl.set_many(items, expire=exp, **kw)
         else:
@@ -433,4 +441,27 @@ def probe_histories():
                     ev("get", k="pfx:a"), ev("gets", k="a"), ev("add", k="a", v=V1, nr=nr), ev("get_many", k="", keys=["pfx:a", "a"])])
         out.append([ev("get_many", k="", keys=[]), ev("gets_many", k="", keys=[]), ev("delete_many", k="", keys=[], nr=nr),
                     ev("set_many", k="", items=[], nr=nr), ev("set", v=V1, nr=nr), ev("get_many", k="", keys=[]), ev("get")])
+    return out
+
+
+def spread_histories():
+    """multi-key calls over eight keys in several orders (on a HashClient with three servers the keys of one call are spread
+    over the servers, interleaved): what comes back is what was found, whatever the order the keys were named in"""
+    V1, VX = [49], [120]
+    def ev(op, k="", v=(), exp=0, nr=False, keys=(), items=()):
+        return {"e": "op", "op": op, "k": k, "v": list(v), "exp": exp, "nr": nr, "cas": 0, "delta": 0,
+                "keys": list(keys), "items": [list(x) for x in items]}
+    ks = ["k%d" % i for i in range(8)]
+    orders = [ks, ks[::-1], ks[::2] + ks[1::2], [ks[i] for i in (3, 0, 6, 1, 7, 2, 5, 4)], [ks[i] for i in (0, 4, 1, 5, 2, 6, 3, 7)]]
+    out = []
+    for oi, order in enumerate(orders):
+        for nr in (False, True):
+            some = order[: 5 + oi % 3]
+            # single sets first: the abstract cache numbers cas ids in the order of the writes, and a set_many on several
+            # servers writes server by server -- no gets_many after a set_many here
+            out.append([ev("set", k=k, v=V1 if i % 2 else VX, nr=nr) for i, k in enumerate(some)] +
+                       [ev("get_many", keys=order), ev("gets_many", keys=order[::-1]), ev("get", k=order[0]),
+                        ev("delete_many", keys=order[1::3], nr=nr), ev("get_many", keys=order), ev("gets_many", keys=order),
+                        ev("set_many", items=[[k, VX] for k in order[::3]], nr=nr), ev("get_many", keys=order),
+                        ev("get_many", keys=order[2:5]), ev("flush_all", nr=nr), ev("get_many", keys=order)])
     return out
